@@ -317,19 +317,23 @@ Section PROGS.
           end)
       else k).
 
-  (* Project.clone(job): a failed copy (other than "destination exists" / "source missing") removes the
-     partial destination before the error is re-raised *)
+  (* Project.clone(job): existed = os.path.lexists(dst) (any OSError reads as "not there"); a failed copy
+     (other than "destination exists" / "source missing") removes the partial destination — only if this
+     call created it — before the error is re-raised *)
   Definition job_clone {A} (ws : path) (i : str) (dst_ws : path) (k : unit + perr -> prog A) : prog A :=
     with_sp ws i (fun sp =>
       let did := calc_id frepr sp in
-      copytree_p 6 (ws ++ [i]) (dst_ws ++ [did]) (fun r =>
-        match r with
-        | FOk false => k (inl tt)
-        | FOk true => rmtree_ign 6 (dst_ws ++ [did]) (k (inr (POs EIO)))     (* shutil.Error: an OSError without errno *)
-        | FErr EEXIST => k (inr (PExn EDestinationExists))
-        | FErr ENOENT => k (inr (PExn EValueError))
-        | FErr e => rmtree_ign 6 (dst_ws ++ [did]) (k (inr (POs e)))
-        end)) (fun e => k (inr e)).
+      Do (CStat (dst_ws ++ [did])) (fun rs =>
+        let cleanup (e : perr) : prog A :=
+          if exists_r rs then k (inr e) else rmtree_ign 6 (dst_ws ++ [did]) (k (inr e)) in
+        copytree_p 6 (ws ++ [i]) (dst_ws ++ [did]) (fun r =>
+          match r with
+          | FOk false => k (inl tt)
+          | FOk true => cleanup (POs EIO)                  (* shutil.Error: an OSError without errno *)
+          | FErr EEXIST => k (inr (PExn EDestinationExists))
+          | FErr ENOENT => k (inr (PExn EValueError))
+          | FErr e => cleanup (POs e)
+          end))) (fun e => k (inr e)).
 
   (* shutil.rmtree(p): the first error is raised *)
   Fixpoint rmtree_p {A} (fuel : nat) (p : path) (k : fres unit -> prog A) : prog A :=
